@@ -1,7 +1,7 @@
 //! Simulated clock: a discrete-event timer queue. `now` only moves when the timer coroutine
 //! fires the earliest pending timer and jumps the clock to its deadline.
 
-use crate::core::{self, park, sched, unpark};
+use crate::core::{self, sched, unpark};
 use std::sync::atomic::{AtomicU64, Ordering};
 use std::sync::Mutex as StdMutex;
 use std::time::Duration;
@@ -78,12 +78,11 @@ pub fn timer_loop(stop: &std::sync::atomic::AtomicBool) {
         if stop.load(Ordering::SeqCst) || core::exec_over() {
             break;
         }
-        if !fire_next() {
-            *TIMER_IDLE_WAITER.lock().unwrap() = Some(core::me());
-            core::park_on("timer-idle");
-        } else {
-            core::yield_now();
-        }
+        // Always runnable: the scheduler picks this coroutine when nothing else can run (or, with
+        // a seeded probability, earlier). If it is picked while no timer is pending and nothing
+        // else is runnable, the scheduler itself declares the deadlock.
+        fire_next();
+        core::yield_now();
     }
     core::TIMER_TASK.store(usize::MAX, Ordering::SeqCst);
 }
